@@ -1020,10 +1020,21 @@ namespace occa {
       const int tokenCount = (int) lineTokens.size();
       for (int i = 0; i < tokenCount; ++i) {
         token_t *token = lineTokens[i];
+        if (token->type() & tokenType::primitive) {
+          // In a controlling expression signed integers act as intmax_t
+          //   and unsigned integers as uintmax_t: #if 0xFFFFFFFF + 1
+          primitive &value = token->to<primitiveToken>().value;
+          if (value.isUnsigned()) {
+            value = value.to<uint64_t>();
+          } else if (value.isSigned() || value.isBool()) {
+            value = value.to<int64_t>();
+          }
+          continue;
+        }
         if (!(token->type() & tokenType::identifier)) {
           continue;
         }
-        lineTokens[i] = new primitiveToken(token->origin, 0, "0");
+        lineTokens[i] = new primitiveToken(token->origin, (int64_t) 0, "0");
         delete token;
       }
 
